@@ -1,6 +1,6 @@
 (* C14 — memory pools hand out disjoint, aligned, reusable blocks.  Obligations (statements in full; proofs in Mpool/). *)
 From Coq Require Import List NArith Permutation.
-From QV Require Import Mpool.Model Mpool.ProofsSize Mpool.Proofs Mpool.ProofsAddr Mpool.Examples.
+From QV Require Import Mpool.Model Mpool.ProofsSize Mpool.Proofs Mpool.ProofsAddr Mpool.Examples Mpool.Micro Mpool.MicroProofs.
 Import ListNotations.
 Local Open Scope N_scope.
 
@@ -76,3 +76,52 @@ Theorem pools_independent : forall pagesize env w o k,
   get_pool k (w_pools (fst (world_step pagesize env w o))) = get_pool k (w_pools w).
 Proof. exact world_step_other. Qed.
 Print Assumptions pools_independent.
+
+(* ---- interleavings: micro-step machine of the shared part (Mpool/Micro.v), one shared access per step ---- *)
+
+(* for every schedule and any number of threads: at EVERY point of the execution the pool equals the one reached by an
+   op-atomic history (of alloc_x / free; alloc_x = Model.alloc plus "new slab although the shared list is non-empty",
+   the behaviour added by the unlocked peek at mpool.c:345) made of the operations linearised so far, in the order of
+   their lock-protected writes, each thread's operations in its program order *)
+Theorem micro_refines_atomic : forall p0 thr sched m,
+  mrun true (minit p0 thr) sched = Some m ->
+  exists h L, runx p0 [] h = Some (m_pool m, L) /\ Permutation L (alive m) /\
+    forall u, proj u h ++ t_prog (get_thr u (m_thr m)) = t_prog (get_thr u (m_thr (minit p0 thr))).
+Proof. exact micro_refines_atomic_all. Qed.
+Print Assumptions micro_refines_atomic.
+
+Theorem lock_mutex : forall p0 thr sched m t u,
+  mrun true (minit p0 thr) sched = Some m ->
+  (in_r (t_pc (get_thr t (m_thr m))) = true -> in_r (t_pc (get_thr u (m_thr m))) = true -> t = u) /\
+  (in_p (t_pc (get_thr t (m_thr m))) = true -> in_p (t_pc (get_thr u (m_thr m))) = true -> t = u).
+Proof. exact lock_mutex_all. Qed.
+Print Assumptions lock_mutex.
+
+(* cache_wf, live_partition, alloc_fresh transfer to every interleaving *)
+Theorem micro_invariants : forall s0 thr sched m,
+  2 <= s_ipa s0 ->
+  mrun true (minit (pool_of_sizes s0) thr) sched = Some m ->
+  (batches (N.to_nat (p_ipa (m_pool m))) (p_reuse (m_pool m)) /\
+   forall t, cache_ok (p_ipa (m_pool m)) (get_cache t (p_caches (m_pool m)))) /\
+  Permutation (free_items (m_pool m) ++ alive m) (all_items (p_ipa (m_pool m)) (p_nslabs (m_pool m))) /\
+  NoDup (alive m) /\
+  forall t b, exists p' x, alloc_x b (m_pool m) t = (p', RItem x) /\ ~ In x (alive m).
+Proof. exact micro_inv_all. Qed.
+Print Assumptions micro_invariants.
+
+(* the relaxed alloc is Model.alloc whenever the shared list is empty, and when not forced *)
+Theorem alloc_x_is_alloc : forall b p t, p_reuse p = [] -> alloc_x b p t = alloc p t.
+Proof. exact alloc_x_empty. Qed.
+Print Assumptions alloc_x_is_alloc.
+
+(* refuted variant: the same machine without lock/unlock around free's hand-over loses a batch:
+   two threads read reuse_pool = NULL, both write; items (0,0),(0,1) are neither free nor held afterwards *)
+Theorem unlocked_handover_refuted :
+  exists m, mrun false (minit (pool_of_sizes s2m) progs_w) sched_w = Some m /\
+    (forall u, t_pc (get_thr u (m_thr m)) = Idle /\ t_prog (get_thr u (m_thr m)) = []) /\
+    alive m = [] /\ p_nslabs (m_pool m) = 4 /\
+    items_of (p_reuse (m_pool m)) = [(2, 1); (2, 0)] /\
+    ~ In (0, 0) (free_items (m_pool m) ++ alive m) /\ ~ In (0, 1) (free_items (m_pool m) ++ alive m) /\
+    ~ Permutation (free_items (m_pool m) ++ alive m) (all_items (p_ipa (m_pool m)) (p_nslabs (m_pool m))).
+Proof. exact unlocked_handover_refuted_all. Qed.
+Print Assumptions unlocked_handover_refuted.
